@@ -71,6 +71,10 @@ CLAIMS = {
   "Deductive, decision functions only: LFRicHaloExchange.required answers 'no exchange' only if for EVERY run-time halo depth H>=1 and every run-time stencil extent v>=1 the depth the writer left clean (literal depth or the whole halo, minus the outermost level for a continuous writer) covers what each non-annexed reader needs (literal+extent, the whole halo, or all but the outermost level) -- linear integer VCs quantified over H and v, list loop by invariant; 'not known' implies 'required'. PSyLoop.unique_modified_args returns every argument of the requested type whose access modifies it (nested loop invariants). Known finding (open): a single max_depth_m1 reader after a fixed-depth writer. A brute-force evaluation of the same spec on the real required() over 374 record combinations agrees.",
   "ASSUMED, not proved: how the read/write depth records are computed from the schedule, the placement of exchanges over the whole invoke and its preservation by redundant-computation, colouring, asynchronous-exchange and OpenMP transformations (the protocol-level induction), gen_mark_halos_clean_dirty's emitted set_dirty/set_clean calls. The halo conventions in CLEANED/NEEDED are transcribed by hand.",
   TECH + "; integer VCs quantified over run-time depths"),
+ "C20": ("proof",
+  "For each of the 67 built-ins whose definition line is extracted from doc/user_guide/dynamo0p3.rst on every run: the real front end builds the built-in node, the real lower_to_language_level is executed (a closed function of the node) and the produced assignment is compared with the documented definition by a z3 obligation over ALL real/integer values (SIGN/MAX/MIN/INT/REAL per Fortran 2008; reductions: accumulated summand); the assigned variable is the documented target; the DoF loop bound is checked for every distributed-memory x annexed-DoF setting ('nannexed' iff DM and annexed and no reduction); the formulas are re-checked with scalar arguments named like the PSy layer's own symbols (df, ...). 447 obligations discharged, setval_random unspecified.",
+  "Trusted: the user-guide parser, the intrinsic semantics, z3; '**' is uninterpreted. The lowering code is executed, not symbolically run: the domain of nodes is finite (one per documented built-in x settings), the values are symbolic. NOT covered: OpenMP reduction code and clauses of parallelised built-in loops (seeded change C20b missed), halo state (C22).",
+  "contract-based verification of executed closed lowering code against the documented definitions: z3 obligations over all argument values (finite class domain, symbolic values), doc-extracted oracle"),
 }
 
 NA = {
